@@ -3,5 +3,6 @@ EXTENDS SymExport
 ASSUME RebuildFlatten
 ASSUME ImportNeverDangling
 ASSUME Emit
+ASSUME IF ViaFree THEN TRUE ELSE EmitTables
 ASSUME PrintT("FORESTS " \o ToString(Cardinality(Forests)) \o " TABLES " \o ToString(Cardinality(Tables)))
 =============================================================================
